@@ -45,7 +45,7 @@ def factorized(codes, req):
     return [present.index(c) if c >= 0 else -1 for c in codes], len(present)
 
 
-def planner_facts(fcodes, nlab, chunks, two_d_by, merge):
+def planner_facts(fcodes, nlab, chunks, two_d_by, merge, rows=(1, 1)):
     """fallback when the call did not reach the 'plan' hook: ask the planner directly on the same labels and chunk grid"""
     import pandas as pd
 
@@ -55,7 +55,7 @@ def planner_facts(fcodes, nlab, chunks, two_d_by, merge):
     grid = (tuple(chunks),)
     if two_d_by:
         c = np.stack([c, c])
-        grid = ((1, 1), tuple(chunks))
+        grid = (tuple(rows), tuple(chunks))
     try:
         pref, coh = find_group_cohorts(c, grid, expected_groups=pd.RangeIndex(nlab), merge=merge)
         return pref, bool(coh)
@@ -81,6 +81,7 @@ def run_plan_case(case):
     array = redcase.concretize(vals, dtype)
     by = redcase.label_array(codes, kind)
     two_d = case["shape"] != "1d"
+    rows = (2,) if case.get("rowch") == "whole" else (1, 1)     # the two rows in one block or in two
     if two_d:
         array = np.stack([array, array[::-1]])
         by2 = np.stack([by, by]) if case["shape"] == "2dby" else by
@@ -113,13 +114,13 @@ def run_plan_case(case):
         del _verif.EVENTS[:]
         try:
             if case["arrdask"]:
-                ch = ((1, 1), tuple(chunks)) if two_d else (tuple(chunks),)
+                ch = (rows, tuple(chunks)) if two_d else (tuple(chunks),)
                 a = da.from_array(array, chunks=ch)
             else:
                 a = array
             b = by2 if (two_d and case["shape"] == "2dby") else by
             if case["bydask"]:
-                b = da.from_array(b, chunks=((1, 1), tuple(chunks)) if b.ndim == 2 else (tuple(chunks),))
+                b = da.from_array(b, chunks=(rows, tuple(chunks)) if b.ndim == 2 else (tuple(chunks),))
             res = groupby_reduce(a, b, method=m, **kw)
             r, g = dask.compute(res[0], res[1], scheduler="synchronous")
             r = np.asarray(r)
@@ -137,8 +138,8 @@ def run_plan_case(case):
     out["out"] = outs
     fcodes, nlab = factorized(codes, req)
     by2d = case["shape"] == "2dby"
-    pref, has = planner_facts(fcodes, nlab, chunks, by2d, False)
-    _, hasm = planner_facts(fcodes, nlab, chunks, by2d, True)
+    pref, has = planner_facts(fcodes, nlab, chunks, by2d, False, rows)
+    _, hasm = planner_facts(fcodes, nlab, chunks, by2d, True, rows)
     out["fcodes"] = fcodes
     # the planner's answer is an INPUT of Plan.tla (the planner itself is C09's subject): take it from the call's own
     # "plan" event when the call got that far (method=None consults it without merging, method='cohorts' with merging)
@@ -152,23 +153,25 @@ def run_plan_case(case):
                   "allAxes": not (case["shape"] == "2dby" and len(case["axis"]) == 1), "byNdim": 2 if case["shape"] == "2dby" else 1,
                   "pref": pref, "hasCohorts": has, "hasCohortsM": hasm,
                   # array.numblocks over the reduced axes: a 2-D grouper reduced over both axes also sees the two row blocks
-                  "oneBlock": len(chunks) == 1 and not (by2d and len(case["axis"]) == 2)}
+                  "oneBlock": len(chunks) == 1 and not (by2d and len(case["axis"]) == 2 and len(rows) > 1)}
     return out
 
 
-def build(func, engine, reindex, arrdask, bydask, expected, dtypearg, layout, dtype, shape, axis_i):
+def build(func, engine, reindex, arrdask, bydask, expected, dtypearg, layout, dtype, shape, axis_i, rowch="split"):
     if shape == "2dby":
         axis = [[-1], [-2, -1]][axis_i]
     else:
         axis = None
         if axis_i:
             return None
+    if shape == "1d" and rowch != "split":
+        return None
     if func == "nanquantile" and engine == "numpy":
         pass
     if dtype == "i8" and min(LAYOUTS[layout][0]) < 0 and False:
         return None
     return {"func": func, "engine": engine, "reindex": reindex, "arrdask": arrdask, "bydask": bydask, "expected": expected, "dtypearg": dtypearg,
-            "layout": layout, "dtype": dtype, "shape": shape, "axis": axis}
+            "layout": layout, "dtype": dtype, "shape": shape, "axis": axis, "rowch": rowch}
 
 
 def run(ctx):
@@ -179,7 +182,7 @@ def run(ctx):
         raise MachineryFailure(f"MC_Plan: {res.violated} violated by configuration {st.get('c')} — confirm on the real code (harness/drivers/c19.py) and fix the code or the model")
     sp = gen.Space("cells", {"func": list(FUNCS), "engine": [None, "numpy", "flox", "numbagg", "numba"], "reindex": [None, True, False], "arrdask": [True, False],
                              "bydask": [False, True], "expected": ["none", "present", "absent"], "dtypearg": [False, True], "layout": list(LAYOUTS),
-                             "dtype": ["f8", "i8"], "shape": ["1d", "2dbatch", "2dby"], "axis_i": [0, 1]}, build)
+                             "dtype": ["f8", "i8"], "shape": ["1d", "2dbatch", "2dby"], "axis_i": [0, 1], "rowch": ["split", "whole"]}, build)
     budget = 5000 if ctx.tier == "quick" else 120000
     cases = sp.sample(ctx.rng, budget)
     ctx.cov["space"] = {"cells": sp.size, "visited": len(cases)}
@@ -213,7 +216,7 @@ def run(ctx):
         lines.append(line)
         for o in rec["out"]:
             kinds[o["kind"]] = kinds.get(o["kind"], 0) + 1
-        ctx.nontrivial(str([rec[k] for k in ("func", "engine", "reindex", "arrdask", "bydask", "expected", "dtypearg", "layout", "dtype", "shape", "axis")]))
+        ctx.nontrivial(str([rec[k] for k in ("func", "engine", "reindex", "arrdask", "bydask", "expected", "dtypearg", "layout", "dtype", "shape", "axis", "rowch")]))
         # accepted results: also against the reference (1-D; batch rows separately; 2-D labels reduced over all axes = the
         # flattened problem in C order)
         if rec["func"] not in ("median", "nanquantile") and "groups" in rec:
@@ -248,7 +251,7 @@ def run(ctx):
             continue
         rec = owner[f[1]]
         prop = sorted(set(f[2]) - {"drift"})
-        brief = {k: rec[k] for k in ("func", "engine", "reindex", "arrdask", "bydask", "expected", "dtypearg", "layout", "dtype", "shape", "axis")}
+        brief = {k: rec[k] for k in ("func", "engine", "reindex", "arrdask", "bydask", "expected", "dtypearg", "layout", "dtype", "shape", "axis", "rowch")}
         brief["outcomes"] = [{"method": str(m), "kind": o["kind"], "msg": o.get("msg", "")[:100], "vals": o["vals"][:6]} for m, o in zip(METHODS, rec["out"])]
         if prop:
             ctx.violation(brief, "plan:" + "+".join(prop), {"predicted": f[3]})
@@ -315,7 +318,7 @@ def calls_from_repo_tests(ctx):
 
 
 def replay(ctx, payload):
-    case = {k: v for k, v in payload["case"].items() if k in ("func", "engine", "reindex", "arrdask", "bydask", "expected", "dtypearg", "layout", "dtype", "shape", "axis")}
+    case = {k: v for k, v in payload["case"].items() if k in ("func", "engine", "reindex", "arrdask", "bydask", "expected", "dtypearg", "layout", "dtype", "shape", "axis", "rowch")}
     rec = run_plan_case(case)
     print([(str(m), o["kind"], o.get("msg", "")[:80]) for m, o in zip(METHODS, rec["out"])])
     return 0
